@@ -26,11 +26,19 @@
 #include <algorithm>
 #include <array>
 
-#if defined(__SANITIZE_ADDRESS__)
-# include <sanitizer/asan_interface.h>
+#if defined(__has_feature)
+# if __has_feature(address_sanitizer)
+#  define SIM_ASAN 1
+# endif
+#endif
+#if !defined(SIM_ASAN) && defined(__SANITIZE_ADDRESS__)
 # define SIM_ASAN 1
-#else
+#endif
+#if !defined(SIM_ASAN)
 # define SIM_ASAN 0
+#endif
+#if SIM_ASAN
+# include <sanitizer/asan_interface.h>
 #endif
 
 extern "C" {
